@@ -7,7 +7,7 @@ from . import common
 
 ID = 'C14'
 LEVEL = 'exploration'
-BUDGET = {'quick': (8000, 70.0), 'thorough': (300000, 1500.0)}
+BUDGET = {'quick': (60000, 80.0), 'thorough': (800000, 1500.0)}
 RULE = ('J1939-21: a requester stack (CA operational or without an address) and 1-2 responder stacks holding 1-3 CAs in the claim states operational (bypassed or '
         'really claimed), not started, waiting for veto and cannot-claim (reached by real claim histories with a scripted contender); send_request(0, pgn, dest) '
         'for PGN boundary values and random 18-bit values incl. the address-claim PGN, every destination class (owned, global, unowned, 254, own). '
